@@ -1,7 +1,8 @@
 ------------------------------- MODULE PolyMC -------------------------------
 (***************************************************************************)
 (* Exhaustive model checking of Poly over a small FFT-friendly prime field *)
-(* (C19).  One TLC run per prime (PolyMC17/97/193/257.cfg).                *)
+(* (C19).  One TLC run per prime: PolyMC5 / 17 / 97 / 257Q.cfg (quick) and *)
+(* PolyMC5T / 17T / 97 / 193T / 257T.cfg (thorough).                       *)
 (*                                                                         *)
 (* The state graph is a tree: root -> group (kernel family, domain size)   *)
 (* -> pending case -> case (one concrete input; the extra step spreads the *)
